@@ -133,6 +133,7 @@ contract('Batching.ParameterList.build',
          ensures={'C14': [build_post]},
          modifies=['new:list[any]', 'new:list[list[tuple[str,any]]]', 'new:list[tuple[str,any]]'],
          locals={'param_list': 'list[list[tuple[str,any]]]', 'args': 'list[tuple[str,any]]'},
+         roles={'param_list': 'emptylist#0'},
          loops={0: dict(invariant=[(build_inv, ['C14'])], index='p',
                         modifies=['new:list[tuple[str,any]]', 'param_list'])},
          native=False, props=['C14'])
@@ -235,7 +236,7 @@ contract('Batching.grid_search',
          ensures={'C16': [search_best_post]},
          modifies=['new:list[any]', 'new:list[dict[str,any]]', 'store:dict[str,any]',
                    'new:list[list[tuple[str,any]]]', 'new:list[tuple[str,any]]'],
-         locals={'results': 'list[dict[str,any]]', 'target_score': 'num'},
+         locals={'results': 'list[dict[str,any]]', 'target_score': 'num'}, roles={'results': 'emptylist#0'},
          loops={0: dict(invariant=[(search_serial_inv, ['C16'])], index='i',
                         modifies=['results', 'store:dict[str,any]', 'new:list[any]']),
                 2: dict(invariant=[(search_select_inv, ['C16'])], index='i', modifies=['store:dict[str,any]'])},
@@ -385,7 +386,7 @@ contract('Batching.batch_run',
          raises={'Exception': dict(when=None, modifies=['store:*']),
                  'AttributeError': dict(when=None, modifies=['store:*'])},
          modifies=BATCH_MODS,
-         locals={'results': 'list[any]'},
+         locals={'results': 'list[any]'}, roles={'results': 'emptylist#0'},
          ghost_init='batch_init', view='batch',
          loops={0: dict(invariant=[(batch_serial_inv, ['C15'])], index='i', modifies=['results'] + BATCH_MODS),
                 1: dict(invariant=[(batch_par_inv, ['C15'])], index='i', iter_name='outs', modifies=['results'])},
